@@ -108,3 +108,11 @@ def p3_escape_lemmas(tier):
                              "eight two-character escapes" % ('{"k":"v"}' if obj else '["v"]', w - 2),
                         bound="string bodies of %d bytes; \\u escapes excluded here (lemmas S1-S4)" % (w - 2), expect_reach=["P3e.returned", "P3e.accepted"]))
     return ls
+
+
+def s6_lemmas(tier):
+    return [Lemma("S6.parseString", "verifHarness_S6_ParseString", FP3, split_depth="auto", intr=Stage2SummIntrinsics,
+                  desc="parseString on an escape-free string of 0..3 bytes with 4..83 bytes of message left and a string buffer of capacity 41 "
+                       "filled to any level: the padded copy gives the decoder its 44 readable bytes beyond the cursor, the string buffer is "
+                       "grown so that 32 bytes of slack remain behind the copy, offset / buffer flag / length are written as documented",
+                  bound="message tail 4..83 bytes, string <= 3 bytes, string buffer 0..41 of 41 bytes used", expect_reach=["S6.parseString"])]
